@@ -8,6 +8,12 @@ use std::time::Instant;
 pub const VERIF_DIR: &str = "/verif";
 
 static CURRENT_PROPERTY: std::sync::Mutex<String> = std::sync::Mutex::new(String::new());
+static CURRENT_LEVEL: std::sync::Mutex<&'static str> = std::sync::Mutex::new("other");
+
+/// the level of the check that is running (for the evidence written when the watchdog ends a run)
+pub fn current_level() -> &'static str {
+    *CURRENT_LEVEL.lock().unwrap()
+}
 
 /// the property whose check is running (for replay files written by self-guarding runners)
 pub fn current_property() -> String {
@@ -120,6 +126,7 @@ pub struct Report {
 impl Report {
     pub fn new(id: &str, tier: &str, level: &'static str, rule: &str) -> Self {
         *CURRENT_PROPERTY.lock().unwrap() = id.to_string();
+        *CURRENT_LEVEL.lock().unwrap() = level;
         Self {
             id: id.to_string(),
             tier: tier.to_string(),
